@@ -31,7 +31,9 @@ func H_parent_chain() {
 		}
 		src += " {\n"
 		if def[i] {
-			src += "  public function m() { emit(" + itoa(i) + ");"
+			// a $this-> call inside every definition: it runs the most-derived step() of the OBJECT's
+			// class, also when this definition was entered through parent::
+			src += "  public function m() { emit(" + itoa(i) + "); emit($this->step());"
 			if chain[i] {
 				src += " parent::m();"
 			}
@@ -43,6 +45,9 @@ func H_parent_chain() {
 				src += " parent::sm();"
 			}
 			src += " }\n"
+		}
+		if i == 0 || i == 2 {
+			src += "  public function step() { return " + itoa(2+i) + "0; }\n"
 		}
 		// who(): which class does self:: name here; every class overrides tag()
 		src += "  public static function tag() { return " + itoa(5+i) + "; }\n"
@@ -87,8 +92,12 @@ func H_parent_chain() {
 	for j := 0; j < n; j++ {
 		want = append(want, sx.Obs{Kind: 'M', I: j})
 		cur := nearest(j)
+		stepOf := 20 // K0::step
+		if j >= 2 {
+			stepOf = 40 // K2::step, inherited by K3
+		}
 		for cur >= 0 {
-			want = append(want, sx.Obs{Kind: 'i', I: cur})
+			want = append(want, sx.Obs{Kind: 'i', I: cur}, sx.Obs{Kind: 'i', I: stepOf})
 			if !chain[cur] {
 				break
 			}
